@@ -35,7 +35,7 @@ VARIANTS = [
     V( 'validate-elm-assert-deleted', LOGIX, 'assert elm <= cnt, \\\n "Attribute %r elements requested invalid: %r" % ( attribute, elm )', 'pass', fires=[ 'D-VALIDATE' ] ),
     V( 'validate-beg-le-cnt', LOGIX, "assert 0 <= beg < cnt,", "assert 0 <= beg <= cnt,", fires=[ 'D-VALIDATE' ] ),
     V( 'validate-write-capacity-vs-cnt', LOGIX, "assert endmax <= endactual,", "assert endmax <= cnt,", fires=[ 'D-VALIDATE' ] ),
-    V( 'validate-store-before-reply-elements', LOGIX, "data.status = 0xFF # On Failure: General Error", "if data.service in (self.WR_TAG_RPY, self.WR_FRG_RPY): attribute[0:1] = data[context].data\n            data.status		= 0xFF", fires=[ 'D-VALIDATE', 'S-STATUS' ] ),
+    V( 'validate-store-before-reply-elements', LOGIX, "data.status = 0xFF # On Failure: General Error", "if data.service in (self.WR_TAG_RPY, self.WR_FRG_RPY): attribute[0:1] = data[context].data\n            data.status		= 0xFF", fires=[ 'D-VALIDATE' ] ),
     V( 'validate-key-clip-dropped', DEVICE, "if stride == 1 and start < stop and stop <= len( self ) and key.stop in (stop,None):", "if stride == 1 and 0 <= start < stop <= len( self ):", fires=[ 'D-VALIDATE' ] ),
     V( 'validate-renamed-locals', LOGIX, "assert elm <= cnt,", "assert elm <= cnt, ", silent=[ 'D-VALIDATE' ] ),
     V( 'set-attribute-bytecount-dropped', DEVICE, "assert 'set_attribute_single.data' in data and len( data.set_attribute_single.data ) == siz * len( att ), \\", "assert 'set_attribute_single.data' in data, \\", fires=[ 'D-VALIDATE' ] ),
@@ -58,7 +58,7 @@ VARIANTS = [
     V( 'response-not-copied', LOGIX, "data.response.enip = dotdict( data.request.enip )", "data.response.enip	= data.request.enip", fires=[ 'D-ECHO' ] ),
     V( 'unregister-proceeds', UCMM, "session or \"(Unknown)\" )\n proceed = False", "session or \"(Unknown)\" )\n                proceed		= True", fires=[ 'D-ECHO' ] ),
     V( 'rpy-constant-wrong', LOGIX, "RD_FRG_RPY = RD_FRG_REQ | 0x80", "RD_FRG_RPY			= RD_FRG_REQ | 0x08", fires=[ 'X-SERVICES' ] ),
-    V( 'produce-branch-deleted', DEVICE, "elif data.get( 'service' ) == cls.GA_ALL_RPY:", "elif data.get( 'service' ) == 0x7FFF:", fires=[ 'X-SERVICES', 'L-AGREE', 'L-SPEC' ] ),
+    V( 'produce-branch-deleted', DEVICE, "elif data.get( 'service' ) == cls.GA_ALL_RPY:", "elif data.get( 'service' ) == 0x7FFF:", fires=[ 'X-SERVICES', 'L-AGREE' ] ),
     V( 'client-result-without-terminal', CLIENT, "if self.frame.terminal:\n log.info( \"EtherNet/IP %16s:%-5d done: %s -> %10.10s; next byte %3d: %-10.10r: %r\",", "if True:\n            log.info( \"EtherNet/IP   %16s:%-5d done: %s -> %10.10s; next byte %3d: %-10.10r: %r\",", fires=[ 'P-ACT' ] ),
     V( 'client-engine-not-dropped', CLIENT, "self.addr[0], self.addr[1], str( exc ))\n self.engine = None\n raise", "self.addr[0], self.addr[1], str( exc ))\n            raise", fires=[ 'P-ACT' ] ),
     # ---- grammar rules
@@ -298,7 +298,8 @@ def run_variant( args ):
         hit = [ rid for rid in v['fires'] if fired.get( rid ) ]
         out['fired'] = hit
         out['sample'] = ( fired[hit[0]][0].human().strip()[:200] if hit else '' )
-        out['status'] = 'ok' if hit else ( 'undecided' if errors else 'MISS' )
+        # every rule named by the variant must report it
+        out['status'] = 'ok' if len( hit ) == len( v['fires'] ) else ( 'undecided' if errors else 'MISS' )
     else:
         noisy = [ rid for rid in v['silent'] if fired.get( rid ) ]
         out['fired'] = noisy
